@@ -5,14 +5,24 @@ from .common import Acc, intercept, result, search_result
 
 ID = "C03"
 LEAN_MODULES = ["MjwVerif.Props.C03"]
-GEN_FUNCS = ["support.next_act", "forward._actuator_force", "util_misc._sigmoid", "util_misc.muscle_gain_length", "util_misc.muscle_bias"]
+GEN_FUNCS = ["support.next_act", "forward._actuator_force", "util_misc._sigmoid", "util_misc.muscle_gain_length", "util_misc.muscle_bias", "smooth._transmission", "support.jac_dof"]
 KERNELS = ["forward._actuator_force", "forward._actuator_velocity", "forward._qfrc_actuator", "forward._tendon_actuator_force", "forward._tendon_actuator_force_clamp"]
-LEVEL_TEXT = ("Theorems over the reals about functions/kernels regenerated from support.py / forward.py / util_misc.py on every run: next_act per dynamics type (integrator/filter/filterexact/muscle/"
+LEVEL_TEXT = ("Theorems over the reals about functions/kernels regenerated from support.py / forward.py / util_misc.py / smooth.py on every run: next_act per dynamics type (integrator/filter/filterexact/muscle/"
               "none/user) equals a transcription of mj_nextActivation, stays in actrange when clamped, filterexact limit behaviour; muscle helpers (_sigmoid in [0,1] and monotone, force-length "
               "curve in [0,1], passive force sign); `_actuator_force`: the control used is the clamped control (ctrllimited and CLAMPCTRL not disabled) and with forcelimited the stored force lies "
-              "in forcerange (non-DCMOTOR bias). Lengths, moments, velocities, forces and qfrc_actuator of the real fwd_actuation are compared with mujoco (sampled).")
-LEVEL_NOTE = ("C03_partial: transmission moments (site/slider-crank/body), tendon/joint actuator-force limits and DC-motor branches are sampled only; documented deviations in C03Witness "
-              "(USER dynamics unclamped; inverted actrange; DC-motor cogging torque after the force clamp). Trusted: Lean kernel + Mathlib, translator.")
+              "in forcerange (non-DCMOTOR bias); `_transmission` (SITE with reference site, translational gear, two-body topology, all real data): the complete write list, the moment entry being the velocity of "
+              "the actuated site's own point minus that of the reference site's own point along the wrench R_ref*gear (transmission_refsite_moment_at_refsite_point, transmission_site_moment_at_site_point). Lengths, velocities, forces, act_dot and qfrc_actuator of the real fwd_actuation are compared with mujoco (sampled). "
+              "Transmission scenes (sampled, every run): the dense actuator_moment matrix, row by row, plus length/velocity/force/qfrc_actuator, of mjw.transmission run alone on MuJoCo's own "
+              "kinematics AND of the whole forward pass, against mujoco, on a branching tree (root hinge/free/ball in rotation, ball or slide+hinge inner link, welded body) with a second free "
+              "tree, a slide-only tree and an adhesion pad: site+refsite in 11 topological relations of the two sites (refsite in world / ancestor / descendant / sibling branch / other tree / "
+              "slide-only tree / same body / parent body / welded body, site in world) x translational / rotational / mixed gear, site without refsite, slider-crank in 5 relations with both "
+              "determinant branches, joint and jointinparent on ball/free/hinge, spatial and fixed tendons, body (adhesion) with active, in-gap and no contacts under both cones; force laws "
+              "motor/position/velocity/affine in rotation so that a wrong length or moment also shows in the force.")
+LEVEL_NOTE = ("C03_partial: transmission moments (site/refsite/slider-crank/body/tendon/ball/free; compared per actuator row with mujoco on the transmission scenes), tendon/joint actuator-force "
+              "limits and DC-motor branches are sampled only (the `_transmission` theorems cover one site/refsite topology with translational gear; the generated `_transmission` is tied to the source by regeneration only: it allocates rows with "
+              "an atomic counter, so launch interception cannot replay it); documented deviations in C03Witness (USER dynamics unclamped; inverted actrange; DC-motor cogging torque after the force "
+              "clamp). Not compared (counted in hits): slider-crank within 1% of the singular determinant, axis-angle site differences within 0.02 of pi (length/force only), and the force of "
+              "rotational position servos when the installed MuJoCo wraps their servo error (exact signature: integer multiple of gain*2pi|gear|). Trusted: Lean kernel + Mathlib, translator.")
 ASSUMPTIONS = ["oracle mujoco.mj_forward on the same model/state/ctrl"]
 
 XML = """
@@ -37,7 +47,7 @@ XML = """
 """
 
 
-def _run(ctx, ncases, rec):
+def _run(ctx, ncases, rec, ntrn=12):
   import mujoco
   import mujoco_warp as mjw
   rng = np.random.default_rng(ctx.seed * 1000 + 3)
@@ -93,21 +103,315 @@ def _run(ctx, ncases, rec):
   else:
     scenario()
     kc = None
+  _run_trn(ctx, ntrn, acc)
   return acc, kc
 
 
+# ------------------------------------------------------------------------------------------------------------------------------
+# Transmission scenes: every transmission type on a branching tree + separate trees, with the two attachment points of the
+# two-point transmissions (site/refsite, slider-crank, spatial tendon) in every topological relation.
+
+_REF_PAIRS = [("sa3", "sw", "ref-in-world"), ("sa3", "sb2", "ref-on-sibling-branch"), ("sa3", "sa1", "ref-on-ancestor"), ("sa1", "sa3", "ref-on-descendant"),
+              ("sa2", "sfb", "ref-on-free-tree"), ("sfc", "sb1", "site-on-free-tree"), ("sf", "sb2", "welded-site-sibling-ref"), ("sb2", "ssl2", "ref-on-slide-tree"),
+              ("sa3", "sa2b", "ref-on-parent-body"), ("sa2", "sa2b", "ref-on-same-body"), ("sw", "sa3", "site-in-world")]
+_CRANK_PAIRS = [("sa3", "sb2", "crank-sibling"), ("sfc", "sa1", "crank-free-tree"), ("sa2", "sw", "slider-in-world"), ("sw", "sb1", "crank-in-world"), ("sa3", "sa1", "slider-on-ancestor")]
+_SITE_ONLY = ["sa3", "sfb", "sf", "sw", "sb2"]
+_GEAR_KINDS = ("translational", "rotational", "mixed")
+
+
+def _trn_xml(rng, c):
+  """(xml, meta): meta[i] = dict(kind=..., rel=..., gear=...) per actuator, in actuator order"""
+  def v(scale, n=3):
+    return " ".join(f"{x:.4f}" for x in rng.uniform(-1, 1, n) * scale)
+
+  def unit(n):
+    a = rng.normal(size=n)
+    return " ".join(f"{x:.5f}" for x in a / np.linalg.norm(a))
+
+  def site(name):
+    return f'<site name="{name}" pos="{v(.25)}" quat="{unit(4)}"/>'
+
+  def geom():
+    return f'<geom type="capsule" size=".03" fromto="0 0 0 {v(.3)}" contype="0" conaffinity="0"/>'
+
+  def hinge(name):
+    return f'<joint name="{name}" type="hinge" axis="{unit(3)}"/>'
+
+  def slide(name):
+    return f'<joint name="{name}" type="slide" axis="{unit(3)}"/>'
+
+  root = ("hinge", "free", "ball")[c % 3]
+  rootj = {"hinge": hinge("jr"), "free": '<joint name="jr" type="free"/>', "ball": '<joint name="jr" type="ball"/>'}[root]
+  a2kind = ("ball", "slide+hinge")[(c // 3) % 2]
+  a2j = '<joint name="ja2" type="ball"/>' if a2kind == "ball" else slide("ja2s") + hinge("ja2")
+  gap = c % 2 == 1
+  padgeom = 'contype="1" conaffinity="1"' + (' margin=".03" gap=".015"' if gap else ' margin=".01"')
+  body = f"""
+    <geom name="floor" type="plane" size="5 5 .1" contype="1" conaffinity="1"/>
+    {site("sw")}
+    <body name="r" pos="0 0 1">{rootj}{geom()}{site("sr")}
+      <body name="a1" pos="{v(.3)}">{hinge("ja1")}{geom()}{site("sa1")}
+        <body name="a2" pos="{v(.3)}">{a2j}{geom()}{site("sa2")}{site("sa2b")}
+          <body name="f" pos="{v(.2)}" quat="{unit(4)}">{geom()}{site("sf")}</body>
+          <body name="a3" pos="{v(.3)}">{hinge("ja3")}{geom()}{site("sa3")}</body>
+        </body>
+      </body>
+      <body name="b1" pos="{v(.3)}"><joint name="jb1" type="ball"/>{geom()}{site("sb1")}
+        <body name="b2" pos="{v(.3)}">{slide("jb2s")}{hinge("jb2")}{geom()}{site("sb2")}</body>
+      </body>
+    </body>
+    <body name="fb" pos="1 0 1"><joint name="jfb" type="free"/>{geom()}{site("sfb")}
+      <body name="fc" pos="{v(.3)}">{hinge("jfc")}{geom()}{site("sfc")}</body>
+    </body>
+    <body name="sl" pos="-1 0 1">{slide("jsl")}{geom()}{site("ssl")}
+      <body name="sl2" pos="{v(.3)}">{slide("jsl2")}{geom()}{site("ssl2")}</body>
+    </body>
+    <body name="pad" pos="2 0 .04"><joint name="jpad" type="slide" axis="0 0 1"/><joint name="jpadh" type="hinge" axis="0 1 0"/>
+      <geom name="pad1" type="sphere" size=".05" {padgeom}/><geom name="pad2" type="sphere" size=".05" pos=".2 0 0" {padgeom}/></body>"""
+  acts, meta = [], []
+
+  def gear6(kind):
+    g = rng.uniform(-2, 2, 6)
+    g[np.abs(g) < 0.2] = 0.5
+    if kind == "translational":
+      g[3:] = 0
+    elif kind == "rotational":
+      g[:3] = 0
+    return " ".join(f"{x:.3f}" for x in g)
+
+  def law(k, trn, gear):
+    # force laws that read length and velocity, so that a wrong moment/length is visible in the force as well
+    which = k % 4
+    if which == 0:
+      return f'<motor {trn} gear="{gear}"/>'
+    if which == 1:
+      return f'<position {trn} gear="{gear}" kp="{rng.uniform(2, 8):.2f}" kv="{rng.uniform(.2, 1):.2f}"/>'
+    if which == 2:
+      return f'<velocity {trn} gear="{gear}" kv="{rng.uniform(.5, 2):.2f}"/>'
+    return f'<general {trn} gear="{gear}" gainprm="{rng.uniform(1, 3):.2f}" biastype="affine" biasprm="{v(1.0)}"/>'
+
+  for k, (s, r, rel) in enumerate(_REF_PAIRS):
+    gk = _GEAR_KINDS[(c + k) % 3]
+    acts.append(law(c + 2 * k, f'site="{s}" refsite="{r}"', gear6(gk)))
+    meta.append({"kind": "site+refsite", "rel": rel, "gear": gk})
+  for k, s in enumerate(_SITE_ONLY):
+    gk = _GEAR_KINDS[(c + k + 1) % 3]
+    acts.append(law(c + k, f'site="{s}"', gear6(gk)))
+    meta.append({"kind": "site", "rel": s, "gear": gk})
+  for k, (s, r, rel) in enumerate(_CRANK_PAIRS):
+    acts.append(law(c + k + 1, f'cranksite="{s}" slidersite="{r}" cranklength="1"', f"{rng.uniform(.5, 2) * rng.choice([-1, 1]):.3f}"))
+    meta.append({"kind": "slidercrank", "rel": rel, "gear": "scalar"})
+  for k, (j, jt) in enumerate((("jb1", "ball"), ("jfb", "free"), ("jr", root), ("ja2", a2kind.split("+")[-1]))):
+    for trn in ("joint", "jointinparent"):
+      acts.append(law(c + k, f'{trn}="{j}"', gear6("mixed")))
+      meta.append({"kind": trn, "rel": jt, "gear": "mixed"})
+  for k, t in enumerate(("tsp", "tfix")):
+    acts.append(law(c + k + 1, f'tendon="{t}"', f"{rng.uniform(.5, 2):.3f}"))
+    meta.append({"kind": "tendon", "rel": t, "gear": "scalar"})
+  acts.append(f'<adhesion body="pad" ctrlrange="0 1" gain="{rng.uniform(1, 4):.2f}"/>')
+  meta.append({"kind": "body", "rel": "gap" if gap else "nogap", "gear": "scalar"})
+  xml = f"""<mujoco>
+  <compiler angle="radian"/>
+  <option timestep="0.004" cone="{("pyramidal", "elliptic")[(c // 2) % 2]}"/>
+  <worldbody>{body}
+  </worldbody>
+  <tendon>
+    <spatial name="tsp"><site site="sa3"/><site site="sb2"/><site site="sfc"/></spatial>
+    <fixed name="tfix"><joint joint="ja1" coef="1.3"/><joint joint="jfc" coef="-0.7"/><joint joint="jsl2" coef="0.4"/></fixed>
+  </tendon>
+  <actuator>
+    {chr(10).join("    " + a for a in acts)}
+  </actuator>
+</mujoco>"""
+  return xml, meta, {"root": root, "a2": a2kind, "gap": gap}
+
+
+def _dense_moment(nu, nv, moment, rownnz, rowadr, colind):
+  out = np.zeros((nu, nv))
+  for i in range(nu):
+    for k in range(int(rownnz[i])):
+      out[i, int(colind[rowadr[i] + k])] += moment[rowadr[i] + k]
+  return out
+
+
+def _run_trn(ctx, ncases, acc):
+  """transmission scenes: actuator_moment (dense), length, velocity, force, qfrc_actuator of the real code against MuJoCo, per actuator"""
+  import mujoco
+  import mujoco_warp as mjw
+  rng = np.random.default_rng(ctx.seed * 1000 + 303)
+  for c0 in range(ncases):
+    c = c0 + 5 * ctx.seed   # rotate the deterministic feature schedule with the seed as well
+    xml, meta, info = _trn_xml(rng, c)
+    mjm = mujoco.MjModel.from_xml_string(xml)
+    mjd = mujoco.MjData(mjm)
+    for j in range(mjm.njnt):
+      qa, t = mjm.jnt_qposadr[j], mjm.jnt_type[j]
+      if t == mujoco.mjtJoint.mjJNT_FREE:
+        mjd.qpos[qa:qa + 3] = mjm.qpos0[qa:qa + 3] + rng.normal(size=3) * 0.3
+        q = rng.normal(size=4)
+        mjd.qpos[qa + 3:qa + 7] = q / np.linalg.norm(q)
+      elif t == mujoco.mjtJoint.mjJNT_BALL:
+        q = rng.normal(size=4)
+        mjd.qpos[qa:qa + 4] = q / np.linalg.norm(q)
+      else:
+        mjd.qpos[qa] = rng.normal() * 0.5
+    jpad = mjm.jnt_qposadr[mujoco.mj_name2id(mjm, mujoco.mjtObj.mjOBJ_JOINT, "jpad")]
+    # adhesion pad over the floor, in rotation: penetrating / between margin and margin+gap (excluded contact when the geoms have a gap, none otherwise) / inside the active margin
+    lo, hi = ((-0.02, 0.0), (0.033, 0.042), (0.002, 0.008))[(c // 2) % 3]   # margin .03, detection up to margin + gap = .045
+    mjd.qpos[jpad] = 0.01 + rng.uniform(lo, hi)
+    mjd.qpos[jpad + 1] = rng.uniform(-0.01, 0.01)
+    if info["root"] == "free":
+      mjd.qpos[2] = max(mjd.qpos[2], 1.0)
+    mjd.qvel[:] = rng.normal(size=mjm.nv)
+    mjd.ctrl[:] = rng.normal(size=mjm.nu) * 1.5
+    # crank lengths from the actual geometry: mostly a reachable rod (det > 0), every 4th (rotating) an unreachable one (det <= 0 branch)
+    mujoco.mj_kinematics(mjm, mjd)
+    skip, nolen = set(), set()
+    for i in range(mjm.nu):
+      if meta[i]["kind"] == "slidercrank":
+        s, r = mjm.actuator_trnid[i]
+        vec = mjd.site_xpos[s] - mjd.site_xpos[r]
+        ax = mjd.site_xmat[r].reshape(3, 3)[:, 2]
+        unreachable = (c + i) % 4 == 0
+        perp2 = vec @ vec - (ax @ vec) ** 2
+        rod = np.sqrt(perp2) * (rng.uniform(0.3, 0.8) if unreachable else rng.uniform(1.2, 2.5)) + (0.0 if unreachable else 0.05)
+        mjm.actuator_cranklength[i] = rod
+        det = (ax @ vec) ** 2 + rod * rod - vec @ vec
+        meta[i]["branch"] = "det>0" if det > 0 else "det<=0"
+        if abs(det) < 1e-2 * (rod * rod + vec @ vec):
+          skip.add(i)   # d length / d vec ~ 1/sqrt(det): float32 kinematics error is amplified without bound near det = 0
+          acc.hit("trn:skipped:slidercrank-near-singular")
+      if meta[i]["kind"] == "site+refsite" and meta[i]["gear"] != "translational":
+        s, r = mjm.actuator_trnid[i]
+        qs, qr, dq = np.zeros(4), np.zeros(4), np.zeros(3)
+        mujoco.mju_mat2Quat(qs, mjd.site_xmat[s])
+        mujoco.mju_mat2Quat(qr, mjd.site_xmat[r])
+        mujoco.mju_subQuat(dq, qs, qr)
+        if np.linalg.norm(dq) > np.pi - 0.02:
+          nolen.add(i)   # the axis-angle difference jumps at angle pi: float32/float64 may land on different sides (moment and velocity unaffected)
+          acc.hit("trn:length-and-force-not-compared:quat-difference-near-pi")
+    mujoco.mj_forward(mjm, mjd)
+    # The installed MuJoCo wraps the servo error of a position servo (affine bias with biasprm[1] == -gainprm[0]) whose length is purely
+    # rotational (ball joint; site+refsite with rotational gear) into (-pi |gear|, pi |gear|]; mujoco_warp does not.  Exact signature:
+    # MuJoCo's force differs from its own unwrapped affine law by a non-zero integer multiple of gain * 2 pi |gear|.  Those forces are
+    # reported under the recorded finding id 'servo-angle-wrap' when mujoco_warp's force is observed to differ; everything else is compared as usual.
+    noforce = set()
+    for i in range(mjm.nu):
+      mi = meta[i]
+      rot = (mi["kind"] in ("joint", "jointinparent") and mi["rel"] == "ball") or (mi["kind"] == "site+refsite" and mi["gear"] == "rotational")
+      g0, bp = mjm.actuator_gainprm[i][0], mjm.actuator_biasprm[i]
+      if rot and mjm.actuator_biastype[i] == mujoco.mjtBias.mjBIAS_AFFINE and g0 == -bp[1] and g0 != 0:
+        f0 = g0 * mjd.ctrl[i] + bp[0] + bp[1] * mjd.actuator_length[i] + bp[2] * mjd.actuator_velocity[i]
+        gn = np.linalg.norm(mjm.actuator_gear[i][:3] if mi["kind"] != "site+refsite" else mjm.actuator_gear[i][3:])
+        k = (f0 - mjd.actuator_force[i]) / (g0 * 2 * np.pi * gn)
+        if abs(k) > 0.5 and abs(k - round(k)) < 1e-6:
+          noforce.add(i)
+          acc.hit("trn:force-not-compared:mujoco-wraps-rotational-servo-error")
+        else:
+          acc.hit("trn:rotational-position-servo:unwrapped")
+    if not np.all(np.isfinite(mjd.qfrc_actuator)) or mjd.warning.number.any():
+      acc.hit("trn:skipped:mujoco-warning")
+      continue
+    nworld = 1 + (c % 2)
+    try:
+      m = mjw.put_model(mjm)
+    except Exception as e:
+      acc.hit("trn:rejected:" + type(e).__name__)
+      continue
+    ref_mom = _dense_moment(mjm.nu, mjm.nv, mjd.actuator_moment, mjd.moment_rownnz, mjd.moment_rowadr, mjd.moment_colind)
+    replay = dict(xml=xml, cranklength=mjm.actuator_cranklength.tolist(), ctrl=mjd.ctrl.tolist(), qpos=mjd.qpos.tolist(), qvel=mjd.qvel.tolist())
+    ncon = int(mjd.ncon)
+    nexcl = int(sum(1 for k in range(ncon) if mjd.contact.exclude[k] == 1))
+    acc.hit(f"trn:adhesion-contacts:active={ncon - nexcl}:in-gap={nexcl}:{mjm.opt.cone == 1 and 'elliptic' or 'pyramidal'}")
+
+    nfound = {}
+
+    def find(what, site, trig, **kw):
+      nfound[trig] = nfound.get(trig, 0) + 1
+      if nfound[trig] <= 2:   # at most two findings per case and kind
+        acc.find(what, site, trig, **kw)
+
+    def compare(d, stage, fields):
+      bad = False
+      mom = [_dense_moment(mjm.nu, mjm.nv, d.actuator_moment.numpy()[w], d.moment_rownnz.numpy()[w], d.moment_rowadr.numpy()[w], d.moment_colind.numpy()[w]) for w in range(nworld)]
+      arrs = {nm: getattr(d, nm).numpy() for nm in fields}
+      for i in range(mjm.nu):
+        if i in skip or (stage == "transmission-only" and meta[i]["kind"] == "body"):
+          continue
+        tag = f"{meta[i]['kind']}/{meta[i]['rel']}/{meta[i]['gear']}" + ("/" + meta[i]["branch"] if "branch" in meta[i] else "")
+        for w in range(nworld):
+          tol = 3e-4 * (1 + np.abs(ref_mom[i]).max())
+          if not np.all(np.abs(mom[w][i] - ref_mom[i]) <= tol):
+            find(f"actuator_moment row of actuator {i} ({tag}) differs from MuJoCo [{stage}; root={info['root']}, a2={info['a2']}]: max |d| {np.abs(mom[w][i] - ref_mom[i]).max():.3g} "
+                     f"(tol {tol:.2g}); mjw {np.round(mom[w][i], 4).tolist()} mujoco {np.round(ref_mom[i], 4).tolist()}",
+                     "smooth.transmission", "vs-mujoco-actuator_moment", actuator=i, world=w, **replay)
+            bad = True
+            break
+          for nm in ("actuator_length", "actuator_velocity", "actuator_force"):
+            if nm == "actuator_force" and nm in arrs and i in noforce and i not in nolen:
+              # recorded deviation (known_findings C03-servo-angle-wrap): reported when OBSERVED, i.e. mujoco_warp's force is not MuJoCo's
+              b = mjd.actuator_force[i]
+              if abs(arrs[nm][w][i] - b) > 3e-4 * (1 + np.abs(mjd.actuator_force).max()):
+                find(f"position servo on a purely rotational length (actuator {i}, {tag}): MuJoCo wraps the error ctrl - length into (-pi|gear|, pi|gear|], mujoco_warp does not: "
+                     f"force {arrs[nm][w][i]:.6g} vs {b:.6g}", "forward.fwd_actuation", "servo-angle-wrap", actuator=i, world=w, **replay)
+              continue
+            if nm in arrs and not (nm == "actuator_force" and i in noforce) and not (nm != "actuator_velocity" and i in nolen):
+              b = getattr(mjd, nm)[i]
+              if abs(arrs[nm][w][i] - b) > 3e-4 * (1 + np.abs(getattr(mjd, nm)).max()):
+                find(f"{nm} of actuator {i} ({tag}) differs from MuJoCo [{stage}]: {arrs[nm][w][i]:.6g} vs {b:.6g}",
+                         "smooth.transmission" if nm == "actuator_length" else "forward.fwd_actuation", "vs-mujoco-" + nm, actuator=i, world=w, **replay)
+                bad = True
+      return bad
+
+    # (1) the transmission stage alone, on MuJoCo's own kinematics (site frames, cdof, subtree_com, tendon Jacobians copied by put_data)
+    d = mjw.put_data(mjm, mjd, nworld=nworld)
+    mjw.transmission(m, d)
+    bad = compare(d, "transmission-only", ("actuator_length",))
+    # (2) the whole forward pass
+    d = mjw.put_data(mjm, mjd, nworld=nworld)
+    mjw.forward(m, d)
+    kin_ok = np.allclose(d.site_xpos.numpy()[0], mjd.site_xpos, atol=1e-4) and np.allclose(d.site_xmat.numpy()[0].reshape(-1, 9), mjd.site_xmat, atol=1e-4)
+    con_ok = int(d.nacon.numpy()[0]) == ncon * nworld
+    if not kin_ok or not con_ok:
+      acc.hit("trn:skipped-forward:kinematics-or-contacts-differ")   # C01/C04's business
+    else:
+      bad |= compare(d, "forward", ("actuator_length", "actuator_velocity", "actuator_force"))
+      if not skip and not noforce and not nolen:
+        q = d.qfrc_actuator.numpy()
+        for w in range(nworld):
+          if not np.allclose(q[w], mjd.qfrc_actuator, rtol=3e-4, atol=3e-4 * (1 + np.abs(mjd.qfrc_actuator).max())):
+            acc.find(f"qfrc_actuator differs from MuJoCo (transmission scene, root={info['root']}): max |d| {np.abs(q[w] - mjd.qfrc_actuator).max():.3g}",
+                     "forward.fwd_actuation", "vs-mujoco-qfrc_actuator", world=w, **replay)
+            break
+    acc.evals += mjm.nu
+    for i in range(mjm.nu):
+      if i not in skip:
+        mi = meta[i]
+        acc.hit(f"trn:{mi['kind']}:{mi['rel']}" + (":" + mi["gear"] if mi["kind"] in ("site+refsite", "site") else "") + (":" + mi["branch"] if "branch" in mi else ""))
+        # is the feature really active?  (a moving refsite contributes columns that are not columns of the site's body)
+        acc.distinct.add(("trn", mi["kind"], mi["rel"], mi["gear"], mi.get("branch"), info["root"], info["a2"]))
+    refrows = [i for i in range(mjm.nu) if meta[i]["kind"] == "site+refsite" and meta[i]["rel"] not in ("ref-in-world", "ref-on-ancestor", "ref-on-same-body", "ref-on-parent-body")]
+    if all(np.abs(ref_mom[i]).max() > 1e-3 for i in refrows):
+      acc.hit("trn:moving-refsite-rows-nonzero")
+    acc.sample({"transmission_scene": info, "nu": int(mjm.nu), "nv": int(mjm.nv), "ncon": ncon}, limit=5)
+
+
 RULE = ("2-link arm + slider with motor (ctrl- and force-limited), position, velocity, tendon-driven general actuator with integrator/filter/filterexact dynamics and act limits, muscle, site transmission; "
-        "random state/ctrl/act, flags clampctrl/actearly, joint actuator-force limits; forward() vs mujoco.mj_forward on length, velocity, force, act_dot, qfrc_actuator; distinct = option tuples")
+        "random state/ctrl/act, flags clampctrl/actearly, joint actuator-force limits; forward() vs mujoco.mj_forward on length, velocity, force, act_dot, qfrc_actuator; distinct = option tuples. "
+        "PLUS transmission scenes: 34-actuator model on a branching tree + free tree + slide tree + adhesion pad, deterministic rotation (case index + 5*seed) of root joint type (3), inner link "
+        "joint (2), gear kind per site pair (3), force law (4), unreachable crank (4), pad distance (3) x gap (2) x cone (2); random frames/axes/state; dense actuator_moment rows, length, "
+        "velocity, force, qfrc_actuator of mjw.transmission alone (on MuJoCo's kinematics) and of forward() vs mujoco, tolerance 3e-4*(1+max|reference row|); distinct = (kind, relation, gear, "
+        "branch, root, link) tuples; hits 'trn:*' show each feature and every skipped comparison")
 
 
 def correspondence(ctx):
   from harness.corr import func_corr
   fc = func_corr.run(["util_misc._sigmoid", "util_misc.muscle_gain_length", "util_misc.muscle_gain", "util_misc.muscle_bias", "util_misc.muscle_dynamics", "util_misc.muscle_dynamics_timescale"],
                      ncases=128 if ctx.thorough else 48, seed=ctx.seed)
-  acc, kc = _run(ctx, 40 if ctx.thorough else 10, True)
+  acc, kc = _run(ctx, 40 if ctx.thorough else 10, True, ntrn=36 if ctx.thorough else 12)
   return result(acc, RULE, kc=kc, fc=fc)
 
 
 def search(ctx, breaks):
-  acc, _ = _run(ctx, 100, False)
+  acc, _ = _run(ctx, 100, False, ntrn=72)
   return search_result(acc, "mujoco.mj_forward actuator quantities")
